@@ -234,3 +234,30 @@ void bad_const_in__scratch(fp_t c, const fp_t a) {
 	fp_dbl((dig_t *)a, a);
 	fp_copy(c, a);
 }
+
+void ok_f__add_dig(fp_t c, const fp_t a, dig_t b) {
+	dig_t carry;
+	carry = fp_add1_low(c, a, b);
+	if (carry || dv_cmp(c, fp_prime_get(), RLC_FP_DIGS) != RLC_LT) {
+		carry = fp_subn_low(c, c, fp_prime_get());
+	}
+}
+
+/* the carry-out is dropped */
+void bad_canon_carry__drop(fp_t c, const fp_t a, dig_t b) {
+	fp_add1_low(c, a, b);
+	if (dv_cmp(c, fp_prime_get(), RLC_FP_DIGS) != RLC_LT) {
+		fp_subn_low(c, c, fp_prime_get());
+	}
+}
+
+/* accumulates in the output and keeps reading the base */
+void bad_alias_rw__acc(fp_t c, const fp_t a, const bn_t b) {
+	fp_copy(c, a);
+	for (int i = bn_bits(b) - 2; i >= 0; i--) {
+		fp_sqr(c, c);
+		if (bn_get_bit(b, i)) {
+			fp_mul(c, c, a);
+		}
+	}
+}
